@@ -129,6 +129,10 @@ func init() {
 							"inner-blanks":            "Q" + strings.Repeat(" ", w-2) + "Q",
 							"leading-blank":           " " + strings.Repeat("Q", w-1),
 							"short-padded-left":       strings.Repeat(" ", w-1) + "Q",
+							"over-width-multibyte":    strings.Repeat("Q", w-1) + "\u00e9",
+							"multibyte-at-width":      strings.Repeat("Q", w-2) + "\u00e9",
+							"over-width-invalid-utf8": strings.Repeat("Q", w-1) + "\xff\xfe",
+							"over-width-4byte-rune":   strings.Repeat("Q", w-2) + "\U0001F600",
 						}
 						var mk []string
 						for k := range muts {
